@@ -378,6 +378,7 @@ def finish(M, rec, write=True):
         rec.gate(rec.counters.get("netstep_raised", 0) == 0, f"net.step raised in a history: {sorted(rec.cover.get('netstep_raised', []))[:2]}")
         rec.gate(rec.counters.get("element_step_outcome_unexpected", 0) == 0,
                  f"element step outcome differs from the model: {sorted(rec.cover.get('element_step_outcome_unexpected', []))}")
+    rec.extra["exhaustive_subspaces"] = [f"all histories of length <= {rec.extra.get('exhaustive_depth')} over the 14-operation alphabet, each followed by compile (quick: a third of the longest)"]
     return rec.finish(
         ["compilations_observed", "values_compared"],
         ["expectations"],
